@@ -237,12 +237,12 @@ func (p *Policy) Assemble() ([]bpf.Instruction, error) {
 		}
 	}
 
-	program := make([]bpf.Instruction, 0, len(x32Filter)+len(instructions)+5)
+	program := make([]bpf.Instruction, 0, len(x32Filter)+len(instructions)+6)
 
 	program = append(program, bpf.LoadAbsolute{Off: archOffset, Size: sizeOfUint32})
 
 	// If the loaded arch ID is not equal p.arch.ID, jump to the final Ret instruction.
-	jumpN := len(x32Filter) + len(instructions) - 1
+	jumpN := len(x32Filter) + len(instructions) + 1
 	if jumpN <= 255 {
 		program = append(program, bpf.JumpIf{Cond: bpf.JumpNotEqual, Val: uint32(p.arch.ID), SkipTrue: uint8(jumpN)})
 	} else {
@@ -254,6 +254,11 @@ func (p *Policy) Assemble() ([]bpf.Instruction, error) {
 	program = append(program, bpf.LoadAbsolute{Off: syscallNumOffset, Size: sizeOfUint32})
 	program = append(program, x32Filter...)
 	program = append(program, instructions...)
+
+	// No group matched.
+	defaultRet := NewProgram()
+	defaultRet.Ret(p.DefaultAction)
+	program = append(program, defaultRet.instructions...)
 	return program, nil
 }
 
@@ -364,7 +369,9 @@ func (g *SyscallGroup) Assemble(defaultAction Action) ([]bpf.Instruction, error)
 		syscall.Assemble(&p, action)
 	}
 
-	p.Ret(defaultAction)
+	// No syscall of this group matched: skip the group's action to continue with the
+	// next group or with the default action at the end of the policy.
+	p.instructions = append(p.instructions, bpf.Jump{Skip: 1})
 
 	p.SetLabel(action)
 	p.Ret(g.Action)
